@@ -43,10 +43,10 @@ def handle (fields : List String) (obs : String) : String × String :=
       let le := ins.foldl (fun le i => le.insert i.scope i.beh i.name i.val) LayerEnv.empty
       let out := le.apply qs env
       -- the model's env may hold shadowed duplicates only through `set`, which filters; render as a map
-      let model := renderEnv out ++ ";pure=1;permeq=1"
+      let model := renderEnv out ++ ";pure=1;permeq=1;histeq=1"
       let verdict :=
         match obs.splitOn ";" with
-        | [oenv, "pure=1", "permeq=1"] =>
+        | [oenv, "pure=1", "permeq=1", "histeq=1"] =>
         (match parseEnv oenv with
         | none => "fail:unparsable-observation"
         | some o =>
@@ -56,8 +56,10 @@ def handle (fields : List String) (obs : String) : String × String :=
           | some n => "fail:variable " ++ hexEncode n ++ " expected " ++
               (match specApply ins qs env n with | some v => hexEncode v | none => "unset") ++ " got " ++
               (match o.get n with | some v => hexEncode v | none => "unset"))
-        | [_, "pure=0", _] => "fail:input environment was modified"
-        | [_, _, "permeq=0"] => "fail:result depends on insertion order"
+        | [_, "pure=0", _, _] => "fail:input environment was modified"
+        | [_, _, "permeq=0", _] => "fail:result depends on insertion order"
+        -- the same entries, inserted with queries made in between, must apply like the freshly built value
+        | [_, _, _, "histeq=0"] => "fail:result depends on queries made before later inserts"
         | _ => "fail:unparsable-observation"
       (model, verdict)
     | _, _, _ => ("bad-op", "bad-op")
